@@ -199,6 +199,19 @@ PROPS["C18"] = P("exploration",
     thorough={"cases": 20000, "timeout": 1800},
     floors={"evaluations": 100000, "distinct": 10, "counters": {"decoded_exactly": 10000, "refused_as_expected": 50000}},
     technique="reference-model runtime monitor on the deserialisation entry points")
+PROPS["C10"] = P("exploration",
+    "query texts against the repository's five test schemas, VS and random valid schemas: (a) token-level mutations (delete / duplicate / "
+    "swap / move directives / insert from 60 directive and selection snippets incl. every directive with wrong, missing, duplicated and "
+    "mistyped arguments, inline fragments and spreads, enum/object/variable/huge literals / insert noise tokens / name confusion / span "
+    "duplication / extra operations and fragment definitions / truncation) of all 241 queries under test_data/tests/{valid_queries, "
+    "frontend_errors,parse_errors,execution_errors} and of freshly generated valid queries; (b) character-level damage; (c) pure token "
+    "noise incl. NUL, BOM, RTL override and astral characters. Nesting <= 24 and length <= 8 KiB. frontend::parse runs under catch_unwind; "
+    "worker aborts are attributed to the announced text. distinct_nontrivial = distinct (schema, directive-sequence) shapes sampled + distinct error kinds returned",
+    quick={"cases": 12000, "timeout": 300},
+    thorough={"cases": 1500000, "timeout": 1800},
+    floors={"evaluations": 100000, "distinct": 100, "counters": {"rejected": 50000, "accepted": 1000}},
+    crash_is_violation=True,
+    technique="panic monitor over generative text fuzzing (catch_unwind + worker-crash detection)")
 PROPS["C14"] = P("exploration",
     GEN + "plus two invalid variants per query with several simultaneous frontend errors, plus schema documents with several simultaneous "
     "errors. Each (schema text, query text, arguments) is observed 3x in-process starting from a fresh Schema::parse (serialised IR, declared "
